@@ -159,6 +159,12 @@ SENSITIVITY = [
     "wrongly, history/history:factory-call-changed-class-definition(Values), "
     "history/ + mapping/attributes:element-differs-from-class-definition"
     "(Values)",
+    "_create_for_element: ValueMappings memoised per (connection, class, "
+    "element) and handed out again when the first call had a values_default "
+    "-> history/after-earlier-factory-calls:create:size-mismatch-without-"
+    "default-accepted, ...:attributes:values_default, ...:values-default:"
+    "Values-array-adjusted-wrongly, ...:tovalues:*/items:* (stale "
+    "definition after a redefine step)",
 ]
 
 NS = 'root/cimv2'
